@@ -25,7 +25,8 @@ RULE = ("family = strategy x series (2..30 points) x n x parameters, with one of
         " Round-4 classes: power-of-two scales up to the edge of the float range (2**-900 .. 2**+900, as far as every value and jump stays normal)."
         " Round-6 classes: RuntimeWarnings on the first (ordinary) request are violations (see C04)."
         " Round-7 classes: as C05."
-        " Round-8 classes: a 'threads' kind as in C05 (independent requests, ONE strategy object shared by the threads, first use of the library from several threads at once).")
+        " Round-8 classes: a 'threads' kind as in C05 (independent requests, ONE strategy object shared by the threads, first use of the library from several threads at once)."
+        " Round-9 classes: as C05 (parameter sweeps on one series).")
 REQUIRED_MONITORS = ["threads:rfa", "threads:first_use:rfa", "c07:value_map", "c07:time_map", "c07:locality", "c07:weights"]
 ASSUMPTIONS = ["strategy parameters in the documented ranges; x strictly increasing"]
 NSHARDS = 16
